@@ -36,7 +36,7 @@ class CallHang(BaseException):
     e.g. greedy selection with a negative threshold); treated like a fired fault."""
 
 
-CALL_BUDGET_S = float(os.environ.get("VERIF_CALL_BUDGET", "2.0"))
+CALL_BUDGET_S = float(os.environ.get("VERIF_CALL_BUDGET", "3.0"))
 
 
 def _on_vtalrm(signum, frame):
